@@ -131,6 +131,59 @@ func runC10(p *Prog, r *Report, tier string) {
 			}
 		})
 	}
+	// (1b) the entry that carries the timer: a timer's callback is bound to the keys addTemplate was called with when the
+	// timer was created, so an entry may only ever be reached under those keys: it is a fresh allocation (no timer yet)
+	// or the result of the map lookup under this call's keys - never an object recycled from elsewhere.
+	nEnt := 0
+	eachInstr(at, func(in ssa.Instruction) {
+		st, ok := in.(*ssa.Store)
+		if !ok {
+			return
+		}
+		tn, fn, base, ok := fieldOf(st.Addr)
+		if !ok || tn != "pkg/collector.template" || (fn != "expiryTimer" && fn != "expiryTime") {
+			return
+		}
+		nEnt++
+		bad := ""
+		seen := map[ssa.Value]bool{}
+		var walk func(v ssa.Value)
+		walk = func(v ssa.Value) {
+			v = stripChange(v)
+			if seen[v] {
+				return
+			}
+			seen[v] = true
+			switch x := v.(type) {
+			case *ssa.Phi:
+				for _, e := range x.Edges {
+					walk(e)
+				}
+			case *ssa.Alloc:
+				if !x.Heap {
+					bad = "a non-heap allocation"
+				}
+			case *ssa.Extract:
+				if lk, ok := x.Tuple.(*ssa.Lookup); ok && lk.CommaOk {
+					// inner-map lookup keyed by this call's template id
+					if pf, i := paramIndex(p.origin(lk.Index)); pf == at && i == 2 {
+						return
+					}
+					bad = "a lookup under another key"
+					return
+				}
+				bad = "the result of " + x.Tuple.Name()
+			default:
+				bad = fmt.Sprintf("%T %s", v, v.Name())
+			}
+		}
+		walk(base)
+		r.Check(bad == "", "R-TIMER.entry-origin", fmt.Sprintf("%s: entry whose %s is written", fnKey(at), fn), p.instrPos(in), "a fresh &template{} or templatesMap[obsDomainID][templateID] of this call",
+			"the template entry comes from "+bad+": an entry that already carries a timer armed for other keys would be re-armed, and its callback expires the wrong template", true)
+	})
+	if nEnt == 0 {
+		r.Undecided("R-TIMER.entry-origin", fnKey(at)+": stores to template.expiryTimer / expiryTime", p.pos(at.Pos()), "none found")
+	}
 	// (2) the callback
 	var cb *ssa.Function
 	eachInstr(at, func(in ssa.Instruction) {
